@@ -1,6 +1,6 @@
 /* conformance.c - does the POSIX model agree with the real kernel?
  *
- * Seeded random scripts over {pipe, close, dup2, fcntl F_GETFD/F_SETFD/F_GETFL/F_SETFL,
+ * Seeded random scripts over {pipe, close, dup2, fcntl F_GETFD/F_SETFD/F_GETFL/F_SETFL/F_DUPFD_CLOEXEC,
  * open("/dev/null"), write, read, poll} run twice: against the real kernel (in a forked child
  * whose descriptors >= 3 are closed first) and against the native build of
  * /verif/model/posix_model.c. After every operation the observable result (return value,
@@ -37,7 +37,7 @@ void vp_native_fail(const char *kind, const char *text)
 }
 
 enum { OP_PIPE, OP_CLOSE, OP_DUP2, OP_GETFD, OP_SETFD, OP_GETFL, OP_SETNB, OP_OPENNULL, OP_WRITE1, OP_READ1, OP_FILL,
-       OP_DRAIN, OP_POLL, NOPS };
+       OP_DRAIN, OP_POLL, OP_DUPFD, NOPS };
 struct op {
   int kind, a, b;
 };
@@ -153,6 +153,18 @@ static void run_op(int real, struct op o, char *out, size_t outsz)
       }
       break;
     }
+    case OP_DUPFD: {
+      /* lowest free descriptor >= 3 (b = 0) or >= 5 (b = 1), close-on-exec; report the flag too */
+      if (o.a < 3) { snprintf(out, outsz, "skip"); return; }
+      int min = o.b ? 5 : 3;
+      r = real ? fcntl(o.a, F_DUPFD_CLOEXEC, min) : vp_fcntl(o.a, F_DUPFD_CLOEXEC, min);
+      e = errno;
+      if (r >= 0) {
+        int fl = real ? fcntl(r, F_GETFD) : vp_fcntl(r, F_GETFD, 0);
+        snprintf(extra, sizeof extra, " cx=%d", fl);
+      }
+      break;
+    }
     case OP_POLL: {
       if (o.a < 3) { snprintf(out, outsz, "skip"); return; }
       struct pollfd p = { o.a, (short) (o.b ? POLLIN : POLLOUT), 0 };
@@ -166,7 +178,7 @@ static void run_op(int real, struct op o, char *out, size_t outsz)
 }
 
 static const char *opname[] = { "pipe", "close", "dup2", "getfd", "setfd", "getfl", "setnb", "opennull", "write1",
-                                "read1", "fill", "drain", "poll" };
+                                "read1", "fill", "drain", "poll", "dupfd" };
 
 /* is a 1-byte write comparable? only when the model pipe behind fd is empty (the kernel pipe is then
  * empty too, because both sides execute the same script) */
@@ -210,6 +222,9 @@ int main(int argc, char **argv)
         run_op(1, o, k, sizeof k);
         run_op(0, o, m, sizeof m);
         compared++;
+        if (getenv("CONF_SHOW") && atoi(getenv("CONF_SHOW")) == s) {
+          fprintf(w, "  script %d op %d %s(%d,%d): kernel '%s' model '%s'\n", s, i, opname[o.kind], o.a, o.b, k, m);
+        }
         if (strcmp(k, m) != 0) {
           bad++;
           fprintf(w, "MISMATCH script %d op %d %s(%d,%d): kernel '%s' model '%s'\n", s, i, opname[o.kind], o.a, o.b, k, m);
